@@ -146,37 +146,78 @@ def decorators_of(fi) -> List[str]:
     return [UK(d) for d in fi.node.decorator_list]
 
 
+_FLIP = {ast.Lt: ast.GtE, ast.GtE: ast.Lt, ast.Gt: ast.LtE, ast.LtE: ast.Gt, ast.Eq: ast.NotEq, ast.NotEq: ast.Eq,
+         ast.Is: ast.IsNot, ast.IsNot: ast.Is, ast.In: ast.NotIn, ast.NotIn: ast.In}
+
+
+def atoms(test: ast.AST, decision: bool) -> List[str]:
+    """The condition `test == decision` as a list of canonical atoms that all hold (conjunction)."""
+    while isinstance(test, ast.UnaryOp) and isinstance(test.op, ast.Not):
+        test, decision = test.operand, not decision
+    if isinstance(test, ast.BoolOp):
+        if isinstance(test.op, ast.And) and decision:
+            return sorted(a for v in test.values for a in atoms(v, True))
+        if isinstance(test.op, ast.Or) and not decision:
+            return sorted(a for v in test.values for a in atoms(v, False))
+        inner = sorted(" & ".join(atoms(v, isinstance(test.op, ast.And))) for v in test.values)
+        return [("not all(" if isinstance(test.op, ast.And) else "any(") + "; ".join(inner) + ")"]
+    if isinstance(test, ast.Compare) and len(test.ops) == 1:
+        if not decision and type(test.ops[0]) in _FLIP:
+            import copy
+            test = copy.deepcopy(test)
+            test.ops = [_FLIP[type(test.ops[0])]()]
+            decision = True
+        if decision:
+            return [canon(test)]
+    return [("" if decision else "not ") + canon(test)]
+
+
+def _terminates(stmts) -> bool:
+    if not stmts:
+        return False
+    last = stmts[-1]
+    if isinstance(last, (ast.Raise, ast.Return, ast.Continue, ast.Break)):
+        return True
+    if isinstance(last, ast.If):
+        return bool(last.orelse) and _terminates(last.body) and _terminates(last.orelse)
+    if isinstance(last, ast.With):
+        return _terminates(last.body)
+    return False
+
+
 def refusals_of(fi) -> List[dict]:
-    """One entry per Raise statement of the function (nested functions excluded): the exception type and the chain of
-    enclosing guards (outermost first), each as (canonical condition, decision)."""
+    """One entry per Raise statement of the function (nested functions excluded): the exception type and the set of
+    conditions that necessarily hold when it is reached (canonical atoms; a branch that ends in raise / return puts the
+    negated test on everything after it, `a and b` true / `a or b` false are split, `not` is pushed into comparisons).
+    The set is the same for `if a: raise X` + `else: if b: raise Y`, for the early-return form, and for merged / split
+    nested ifs."""
     out = []
 
-    def walk(stmts, chain, in_handler):
+    def walk(stmts, conds, handler):
+        conds = list(conds)
         for st in stmts:
             if isinstance(st, (ast.FunctionDef, ast.AsyncFunctionDef, ast.ClassDef)):
                 continue
             if isinstance(st, ast.Raise):
-                if in_handler is not None:
-                    out.append(dict(kind="handler", exc=exc_name(st), handler=in_handler, chain=[list(c) for c in chain]))
-                elif not chain:
-                    out.append(dict(kind="plain", exc=exc_name(st), chain=[]))
-                else:
-                    out.append(dict(kind="guard", exc=exc_name(st), chain=[list(c) for c in chain]))
+                out.append(dict(kind="handler" if handler else ("guard" if conds else "plain"), exc=exc_name(st),
+                                conds=sorted(set(conds + ([f"<handler of {handler}>"] if handler else [])))))
             elif isinstance(st, ast.If):
-                t, dec = st.test, True
-                while isinstance(t, ast.UnaryOp) and isinstance(t.op, ast.Not):
-                    t, dec = t.operand, not dec
-                walk(st.body, chain + [(canon(t), dec)], in_handler)
-                walk(st.orelse, chain + [(canon(t), not dec)], in_handler)
+                b, e = conds + atoms(st.test, True), conds + atoms(st.test, False)
+                walk(st.body, b, handler)
+                walk(st.orelse, e, handler)
+                if _terminates(st.body) and not (st.orelse and _terminates(st.orelse)):
+                    conds = e
+                elif st.orelse and _terminates(st.orelse) and not _terminates(st.body):
+                    conds = b
             elif isinstance(st, (ast.For, ast.While, ast.With)):
-                walk(st.body, chain, in_handler)
-                walk(getattr(st, "orelse", []), chain, in_handler)
+                walk(st.body, conds, handler)
+                walk(getattr(st, "orelse", []), conds, handler)
             elif isinstance(st, ast.Try):
-                walk(st.body, chain, in_handler)
+                walk(st.body, conds, handler)
                 for h in st.handlers:
-                    walk(h.body, chain, U(h.type) if h.type is not None else "<bare>")
-                walk(st.orelse, chain, in_handler)
-                walk(st.finalbody, chain, in_handler)
+                    walk(h.body, conds, U(h.type) if h.type is not None else "<bare>")
+                walk(st.orelse, conds, handler)
+                walk(st.finalbody, conds, handler)
     walk(fi.node.body, [], None)
     seen, uniq = set(), []
     for r in out:
@@ -192,15 +233,12 @@ def check_refusal(fi, entry, now=None) -> str:
     now = refusals_of(fi) if now is None else now
     if entry in now:
         return ""
-    chain = entry.get("chain", [])
-    desc = " and ".join(f"`{g}` is {d}" for g, d in chain) or "unconditionally"
-    same_guard = [r for r in now if r["kind"] == entry["kind"] and r["chain"][-1:] == chain[-1:]]
-    if entry["kind"] == "handler":
-        return f"the `raise {entry['exc']}` in the handler of {entry.get('handler')} is gone or moved"
-    if same_guard and any(r["exc"] == entry["exc"] for r in same_guard):
-        return f"the refusal with {entry['exc']} is no longer reached under the same outer conditions ({desc})"
-    if same_guard:
-        return f"when {desc} the function now raises {same_guard[0]['exc']} instead of {entry['exc']}"
+    desc = " and ".join(f"`{c}`" for c in entry.get("conds", [])) or "unconditionally"
+    same_exc = [r for r in now if r["exc"] == entry["exc"]]
+    near = [r for r in same_exc if set(r["conds"]) & set(entry["conds"])]
+    if near:
+        return (f"the refusal with {entry['exc']} is no longer raised exactly when {desc} "
+                f"(now when {' and '.join('`' + c + '`' for c in near[0]['conds']) or 'always'})")
     return f"when {desc} the function no longer raises {entry['exc']} (raise removed, or its condition / polarity changed)"
 
 
@@ -249,8 +287,6 @@ def check(ctx, prop: str, rule: str, floor: int = 1):
                 was, isn = set(ent["rebinds"].get(prm, [])), set(nowr.get(prm, []))
                 for v in sorted(isn - was):
                     probs.append(f"parameter `{prm}` is now re-bound to `{v[:60]}` (the caller's value is rewritten before it is validated / used)")
-                for v in sorted(was - isn):
-                    probs.append(f"parameter `{prm}` is no longer normalised with `{v[:60]}`")
         if "decorators" in ent and decorators_of(fi) != ent["decorators"]:
             probs.append(f"decorators are now {decorators_of(fi)} (were {ent['decorators']}): a caching / wrapping decorator changes what callers get")
         cur = refusals_of(fi)
